@@ -477,6 +477,15 @@ UNITS += [
              Members(["thread_count_"], optional=["thread_count_"])])},
          funcs=[POOL_IMPL + ": scheduled_thread_pool<Scheduler>::create_work"], min_obligations=6,
          doc="T: refused (nothing created) or forwarded exactly once to detail::create_work on this pool's own scheduler"),
+    Unit("pool.create_thread", "chain.c", defines=ENUM_DEFS + ["U_POOL_CREATE_THREAD"], enforce="pool_create_thread",
+         lifts={"body": Lift(POOL_IMPL, r"scheduled_thread_pool<Scheduler>::create_thread\(\s*thread_init_data& data, thread_id_ref_type& id, error_code& ec\)", rules=[
+             THROWS_IF(""), ERR_ENUM, TID,
+             Sub(r"\bsched_->(?:Scheduler::)?is_state\(([^()]*)\)", r"sched_is_state(self->sched_, \1)", None),
+             Sub(r"\bsched_\.get\(\)", "self->sched_", None),
+             Call(r"threads::detail::create_thread", "detail_create_thread({0}, {1}, &(*{2}), {3}); if (vx_exc) return", None),
+             Members(["thread_count_"], optional=["thread_count_"])])},
+         funcs=[POOL_IMPL + ": scheduled_thread_pool<Scheduler>::create_thread"], min_obligations=6,
+         doc="T: refused (nothing created; only a pool without worker threads refuses) or forwarded exactly once to detail::create_thread on this pool's own scheduler"),
     Unit("detail.create_work", "chain.c", defines=ENUM_DEFS + STATE_DEFS + ["U_DETAIL_CREATE_WORK"], enforce="create_work",
          lifts={"body": Lift(CW_CPP, r"thread_id_ref_type create_work\(\s*scheduler_base\* scheduler, thread_init_data& data, error_code& ec\)", rules=[
              THROWS_IF("invalid_thread_id"), ERR_ENUM, TID, STATE_ENUM, PRIO_ENUM,
